@@ -128,11 +128,16 @@ def mode_estep(p):
         C, D, N = rs.randint(1, 4), rs.randint(1, 4), rs.randint(1, 6)
         m = mk(C, D, seed)
         x = rs.normal(size=(N, D)) * 2 + 3
+        # every fourth sample set is stored in a narrow integer dtype (uint8 pixels / int16 audio)
+        if seed % 4 == 1:
+            x = rs.randint(0, 256, size=(N, D)).astype(np.uint8)
+        elif seed % 4 == 3:
+            x = rs.randint(-30000, 30000, size=(N, D)).astype(np.int16)
         st = m.acc_stats(x)
-        exp = ref_estep(x, m.weights, m.means, m.variances)
+        exp = ref_estep(x.astype(float), m.weights, m.means, m.variances)
         for f in ("t", "n", "sum_px", "sum_pxx", "log_likelihood"):
             if not close(getattr(st, f), exp[f], 1e-8):
-                return {"input": {"x": x.tolist(), "weights": m.weights.tolist(), "means": m.means.tolist(),
+                return {"input": {"x": x.tolist(), "dtype": str(x.dtype), "weights": m.weights.tolist(), "means": m.means.tolist(),
                                   "variances": m.variances.tolist()}, "field": f,
                         "observed": np.asarray(getattr(st, f)).tolist(), "expected": np.asarray(exp[f]).tolist(),
                         "what": "GMMStats.%s differs from the responsibility-weighted moment" % f}
